@@ -305,7 +305,7 @@ func generate(thorough bool, emit func(kase)) {
 		}
 	}
 	// (v) DoH response bodies: content-length missing / lying / over the cap, with bodies up to 8 MiB (see runCase)
-	for _, v := range []string{"no-length-1MiB", "no-length-8MiB", "length-65536", "length-70000", "length-negative", "length-garbage", "length-10-body-5", "length-5-body-1MiB", "length-65535-full", "gzip-8MiB-in-9KB", "deflate-8MiB-in-9KB", "status-403", "status-400"} {
+	for _, v := range []string{"no-length-1MiB", "no-length-8MiB", "length-65536", "length-70000", "length-negative", "length-garbage", "length-10-body-5", "length-5-body-1MiB", "length-65535-full", "gzip-8MiB-in-9KB", "deflate-8MiB-in-9KB", "status-403", "status-400", "status-403-body-8MiB", "status-404-body-8MiB-no-length"} {
 		emit(kase{Family: "doh-body", Desc: v, Msg: append(hdr(1, 0, 0, 0), qA...)})
 	}
 	// (iii) header counts x number of records actually present
@@ -483,6 +483,11 @@ func runDoHBody(k kase, srv *dohmem.Server, res *ech.Resolver) (r workers.Result
 		a = dohmem.Answer{HTTPStatus: 403}
 	case "status-400":
 		a = dohmem.Answer{HTTPStatus: 400}
+	case "status-403-body-8MiB":
+		// a refusal that comes with a huge error page: what is read of it is bounded like any other body
+		a = dohmem.Answer{HTTPStatus: 403, Raw: big(8 << 20)}
+	case "status-404-body-8MiB-no-length":
+		a = dohmem.Answer{HTTPStatus: 404, Raw: big(8 << 20), NoLength: true}
 	case "gzip-8MiB-in-9KB", "deflate-8MiB-in-9KB":
 		// an honest content-length (a few KB) and a Content-Encoding header: the body inflates to 8 MiB. The size cap is about what
 		// is decoded, not about what travelled
